@@ -58,6 +58,11 @@ class Adapter(EnvAdapter):
               policies=["safe", "safe_then_mine", "safe_then_invalid", "masked", "random"]),
             c("r3c5m3_rwint", 3, 5, 3, rewards=(3, -2, -1), episodes=20, max_steps=16,
               policies=["safe", "safe_then_mine", "safe_then_invalid", "masked", "random"]),
+            # the narrowest shapes the generator accepts (two rows / two columns), a board of more than 127 cells
+            c("r2c7m2", 2, 7, 2, episodes=20, max_steps=14, policies=mixed + ["safe_then_mine"]),
+            c("r7c2m3", 7, 2, 3, episodes=20, max_steps=14, policies=mixed + ["safe_then_invalid"]),
+            c("r12c20m30", 12, 20, 30, episodes=3, max_steps=215, probe_every=12, probe_cap=48,
+              policies=["safe", "safe_then_invalid", "safe_then_mine"]),
         ]
 
     def make(self, cfg):
